@@ -939,6 +939,71 @@ func resolveIfaceRoles(p *Program) {
 	}
 }
 
+// resolveThinWrappers: when an exported method does nothing but hand its receiver and parameters, in order, to an
+// unexported function of its package and return that function's results, the unexported function *is* the exported
+// operation (its body moved out so that other code of the package can call it without going through the method).
+// Calls of it are reported under the exported name, so rules that look for "a call of AcquirePermitWithMaxWait" see
+// one whichever of the two is called.
+func resolveThinWrappers(p *Program) {
+	for _, fn := range p.Funcs {
+		if fn.Parent() != nil || fn.Object() == nil || !fn.Object().Exported() || len(fn.Blocks) != 1 {
+			continue
+		}
+		var call *ssa.Call
+		okShape := true
+		for _, in := range fn.Blocks[0].Instrs {
+			switch x := in.(type) {
+			case *ssa.Call:
+				if call != nil {
+					okShape = false
+				}
+				call = x
+			case *ssa.Extract, *ssa.DebugRef:
+			case *ssa.Return:
+				for _, r := range x.Results {
+					if r == ssa.Value(call) {
+						continue
+					}
+					if ex, isEx := r.(*ssa.Extract); isEx && ex.Tuple == ssa.Value(call) {
+						continue
+					}
+					okShape = false
+				}
+			default:
+				okShape = false
+			}
+		}
+		if !okShape || call == nil {
+			continue
+		}
+		helper := calleeOf(&call.Call)
+		if helper == nil || !p.InScope[helper] || helper.Pkg != fn.Pkg || helper.Object() == nil || helper.Object().Exported() || helper.Parent() != nil {
+			continue
+		}
+		if len(call.Call.Args) != len(fn.Params) {
+			continue
+		}
+		same := true
+		for i, a := range call.Call.Args {
+			if a != ssa.Value(fn.Params[i]) {
+				same = false
+			}
+		}
+		if !same {
+			continue
+		}
+		if _, has := funcCanon[helper]; has {
+			continue
+		}
+		// only when the helper's own name is not one the rules know
+		if _, isRef := refParamNames(p.CanonFuncName(helper)); isRef {
+			continue
+		}
+		funcCanon[helper] = fn.Name()
+		funcsRenamed++
+	}
+}
+
 // canonName: the name rules know a function by.
 func canonName(fn *ssa.Function) string {
 	if fn == nil {
